@@ -3,7 +3,8 @@ from rules.stream import RULES_C18 as RULES, STREAM_CONFIGS
 from rules.agree import r20_1
 from rules.stream import r08_3
 from rules.utilfn import r13_8
-RULES = list(RULES) + [('R20.1', r20_1), ('R08.3', r08_3), ('R13.8', r13_8)]
+from rules.stream import r07_2
+RULES = list(RULES) + [('R20.1', r20_1), ('R08.3', r08_3), ('R13.8', r13_8), ('R07.2', r07_2)]
 
 LEVEL = 'other'
 THOROUGH_CONFIGS = ['default', 'std', 'logging']
